@@ -888,7 +888,8 @@ fn generate_right_ctx_state_char_arms(
 
     // Same as above for range transitions. Use chain of "or"s for ranges with same transition.
     let mut state_ranges: Map<StateIdx, Vec<(char, char)>> = Default::default();
-    let mut accept_ranges: Set<(char, char)> = Default::default();
+    // NB. Needs to stay sorted: a binary search table may be generated from it
+    let mut accept_ranges: Vec<(char, char)> = vec![];
 
     for Range {
         start,
@@ -902,7 +903,7 @@ fn generate_right_ctx_state_char_arms(
         if states[next.0].accepting.is_empty() {
             state_ranges.entry(*next).or_default().push((start, end));
         } else {
-            accept_ranges.insert((start, end));
+            accept_ranges.push((start, end));
         }
     }
 
@@ -928,7 +929,7 @@ fn generate_right_ctx_state_char_arms(
 
     if !accept_ranges.is_empty() {
         let guard = if accept_ranges.len() > MAX_GUARD_SIZE {
-            let binary_search_table_id = ctx.add_search_table(accept_ranges.into_iter().collect());
+            let binary_search_table_id = ctx.add_search_table(accept_ranges);
 
             quote!(binary_search(x, &#binary_search_table_id))
         } else {
